@@ -24,6 +24,7 @@ type c03ev struct {
 	payload string
 	level   int
 	shared  []log.Field // level 3: a slice owned by the calling goroutine and reused for all its calls
+	rich    []log.Field // level 4: generated fields of every kind the encoders support (C07's generator)
 }
 
 type c03ctxKey struct{}
@@ -38,6 +39,10 @@ func c03emit(tag *log.Tag, e *c03ev) {
 		log.Warnf(ctx, tag, "%s %s", e.id, e.payload)
 	case 2:
 		log.Error(ctx, tag, log.Msg(e.id), log.Object("o", log.String("p", e.payload)), log.Strings("s", []string{e.id, "x"}))
+	case 4:
+		// every encoder path under concurrency: shared state inside the encoders (caches, templates, pooled
+		// encoders) would show as a line that differs from the one the same fields produced alone
+		log.Error(ctx, tag, e.rich...)
 	default:
 		// the caller passes the very same slice to every call (legal: the library must not keep or modify it);
 		// the event's identity travels in the context string
@@ -169,6 +174,7 @@ func c03Worker(w *W) {
 	// (so that some formatted line has exactly cap bytes), and lines beyond 3x cap
 	base := time.Date(2024, 5, 1, 10, 0, 0, 0, time.UTC)
 	evs := make([][]*c03ev, G)
+	richFeats := 0
 	sweepFrom := capBytes - 260
 	for g := 0; g < G; g++ {
 		own := []log.Field{log.String("owner", fmt.Sprintf("goroutine-%d", g)), log.String("p", c03payload(g, 0, 40+g)), log.Int("g", g)}
@@ -187,9 +193,17 @@ func c03Worker(w *W) {
 			if l < 1 {
 				l = 1
 			}
-			evs[g] = append(evs[g], &c03ev{id: fmt.Sprintf("id-g%dx%d-%d", g, si, i), t: base.Add(time.Duration(g*977+i*337) * time.Millisecond), payload: c03payload(g, i, l), level: (g + i) % 4, shared: own})
+			ev := &c03ev{id: fmt.Sprintf("id-g%dx%d-%d", g, si, i), t: base.Add(time.Duration(g*977+i*337) * time.Millisecond), payload: c03payload(g, i, l), level: (g + i) % 5, shared: own}
+			if ev.level == 4 {
+				fg := &fgen{r: newRng(w.Spec.Seed, uint64(w.Spec.Shard)*1_000_003+uint64(g)*100_003+uint64(i)+303), feats: map[string]bool{}}
+				fs, _ := fg.fields(0, 5)
+				ev.rich = append([]log.Field{log.Msg(ev.id)}, fs...)
+				richFeats += len(fg.feats)
+			}
+			evs[g] = append(evs[g], ev)
 		}
 	}
+	w.Count("rich_field_features_generated", int64(richFeats))
 	offsets := map[string]int64{}
 	// phase 1: every event alone
 	for g := range evs {
